@@ -542,6 +542,11 @@ class Evaluator:
             return self.call_ext(f, args, kwargs, node)
         if isinstance(f, OpaqueObj):
             return OpaqueObj(f"{f.label}()")
+        if isinstance(f, ObjVal):
+            m = f.cinfo.find_method("__call__") if f.cinfo is not None else None
+            if m is None:
+                raise Raised("TypeError", f"{f!r} object is not callable", node)
+            return self.call_func(FuncVal(self, m, bound=f), args, kwargs, node)
         if isinstance(f, type) and f in (ValueError, KeyError, NotImplementedError, RuntimeError, TypeError, AssertionError, IndexError, AttributeError):
             return _ExcVal(f.__name__, args[0] if args else "")
         if callable(f):
@@ -926,9 +931,31 @@ class Evaluator:
         raise Undecided("unary op")
 
     def e_BinOp(self, n, env):
-        return self.binop(n.op, self.eval(n.left, env), self.eval(n.right, env))
+        try:
+            return self.binop(n.op, self.eval(n.left, env), self.eval(n.right, env))
+        except Raised as r:
+            if r.node is None:
+                r.node = n
+            raise
+
+    _DUNDER = {ast.Add: "add", ast.Sub: "sub", ast.Mult: "mul", ast.Div: "truediv", ast.MatMult: "matmul", ast.Pow: "pow"}
 
     def binop(self, op, a, b):
+        if isinstance(a, ObjVal) or isinstance(b, ObjVal):
+            name = self._DUNDER.get(type(op))
+            if name is not None:
+                if isinstance(a, ObjVal) and a.cinfo is not None:
+                    m = a.cinfo.find_method(f"__{name}__")
+                    if m is not None:
+                        return self.call(FuncVal(self, m, bound=a), [b], {})
+                if isinstance(b, ObjVal) and b.cinfo is not None:
+                    m = b.cinfo.find_method(f"__r{name}__")
+                    if m is not None:
+                        return self.call(FuncVal(self, m, bound=b), [a], {})
+                if isinstance(a, Arr) and isinstance(b, ObjVal) and isinstance(op, ast.MatMult):
+                    # numpy object arrays: coeffs @ np.array([obj, obj, obj])
+                    pass
+            raise Raised("TypeError", f"unsupported operand type(s) for {type(op).__name__}: {a!r} and {b!r}")
         if isinstance(a, Arr) or isinstance(b, Arr):
             if isinstance(op, ast.MatMult):
                 return _matmul(self, a, b)
@@ -958,10 +985,10 @@ class Evaluator:
                 return 0
             if is_inf(a):
                 return a
+            if not isinstance(b, Rat) and b == 0:
+                raise Raised("ZeroDivisionError", "division by zero")
             if _sym(a, b):
                 return num_norm(_r(a) / _r(b))
-            if b == 0:
-                raise Raised("ZeroDivisionError", "division by zero")
             return num_norm(Fraction(a) / Fraction(b))
         if isinstance(op, ast.Pow):
             if is_inf(a):
@@ -1087,7 +1114,12 @@ class Evaluator:
         if self.call_listener is not None:
             self.call_listener(n, f)
         _ACTIVE[0] = self
-        return self.call(f, args, kwargs, n)
+        try:
+            return self.call(f, args, kwargs, n)
+        except Raised as r:
+            if r.node is None:
+                r.node = n
+            raise
 
     def e_Subscript(self, n, env):
         o = self.eval(n.value, env)
@@ -1124,6 +1156,8 @@ class Evaluator:
                 raise Raised("TypeError", str(e), n)
         if isinstance(o, OpaqueObj):
             return OpaqueObj(f"{o.label}[{k!r}]")
+        if isinstance(o, (int, Fraction, Rat)) or o is None:
+            raise Raised("TypeError", f"'{type(o).__name__}' object is not subscriptable", n)
         raise Undecided(f"subscript of {type(o).__name__}")
 
     def e_Slice(self, n, env):
@@ -1307,12 +1341,14 @@ def _matmul(ev, a, b):
     def dot(u, v):
         if len(u) != len(v):
             raise Raised("ValueError", f"matmul shape mismatch ({len(u)} vs {len(v)})")
-        s = 0
+        s = None
+        objs = any(isinstance(x, ObjVal) for x in u) or any(isinstance(y, ObjVal) for y in v)
         for x, y in zip(u, v):
-            if (isinstance(x, int) and x == 0) or (isinstance(y, int) and y == 0):
+            if not objs and ((isinstance(x, int) and x == 0) or (isinstance(y, int) and y == 0)):
                 continue
-            s = ev.binop(ast.Add(), s, ev.binop(ast.Mult(), x, y))
-        return s
+            t = ev.binop(ast.Mult(), x, y)
+            s = t if s is None else ev.binop(ast.Add(), s, t)
+        return 0 if s is None else s
 
     def mm(X, Y):
         rx, ry = _rank(X), _rank(Y)
@@ -1711,6 +1747,14 @@ def _import_module(ev, name, package=None):
     raise Raised("ModuleNotFoundError", f"No module named '{dotted}'")
 
 
+def _find_spec(ev, name, package=None):
+    try:
+        m = _import_module(ev, name, package)
+    except Raised:
+        return None
+    return OpaqueObj(f"ModuleSpec({m.module.name})")
+
+
 def _binom(ev, n, k):
     n, k = num_norm(n), num_norm(k)
     return math.comb(int(n), int(k))
@@ -1740,6 +1784,7 @@ _EXT_CALLS = {
     "copy.deepcopy": _deepcopy,
     "copy.copy": _copy,
     "importlib.import_module": _import_module,
+    "importlib.util.find_spec": lambda ev, name, package=None: _find_spec(ev, name, package),
     "numba.njit": lambda ev, *a, **k: _NativeFn(lambda f: f),
     "logging.getLogger": lambda ev, *a, **k: OpaqueObj("logger"),
     # the analysed configuration is the default environment
